@@ -136,7 +136,12 @@ def setup(case, tmpdir):
             # give the linking Section children named (and typed) like some of the target's
             for n_, ch in enumerate(list.__iter__(target.sections)):
                 if ch.name in linking.sections:
-                    linking.sections[ch.name].type = ch.type
+                    mine = linking.sections[ch.name]
+                    mine.type = ch.type
+                    # keep the recursion mergeable as well: the own child carries no children that
+                    # could clash (type / dtype) with the target's grandchildren
+                    for x in list(list.__iter__(mine.properties)) + list(list.__iter__(mine.sections)):
+                        mine.remove(x)
                 elif n_ == 0:
                     odml.Section(name=ch.name, type=ch.type, parent=linking)
             for n_, ch in enumerate(list.__iter__(target.properties)):
